@@ -122,48 +122,7 @@ def converter(data):
     return dict(data, converted=True)
 
 
-from fsspec.implementations.local import LocalFileSystem as _LocalFS
-
-
-if True:
-    class SimLocalFS(_LocalFS):
-        """The local file system with a scheduling point in front of every
-        call typhon makes: check-then-act sequences on the directory tree can
-        be interleaved by the simulator."""
-        cachable = False
-
-        def isdir(self, path):
-            _yield("fs.isdir")
-            return super().isdir(path)
-
-        def isfile(self, path):
-            _yield("fs.isfile")
-            return super().isfile(path)
-
-        def exists(self, path, **kw):
-            _yield("fs.exists")
-            return super().exists(path, **kw)
-
-        def makedirs(self, path, exist_ok=False):
-            _yield("fs.makedirs")
-            return super().makedirs(path, exist_ok=exist_ok)
-
-        def mkdir(self, path, create_parents=True, **kw):
-            _yield("fs.mkdir")
-            return super().mkdir(path, create_parents=create_parents, **kw)
-
-        def copy(self, path1, path2, **kw):
-            _yield("fs.copy")
-            return super().copy(path1, path2, **kw)
-
-        def move(self, path1, path2, **kw):
-            _yield("fs.move")
-            return super().move(path1, path2, **kw)
-
-        def mv(self, path1, path2, **kw):
-            _yield("fs.mv")
-            return super().mv(path1, path2, **kw)
-
+from sim.fsseam import SimLocalFS, HOOK as _FS_HOOK
 
 
 TEMPLATES = [
@@ -730,6 +689,7 @@ def run_one(tape, only=None):
     fsmod = _T["fsmod"]
     SimPoolBase.sim, SimPoolBase.registry = sim, []
     SIM[0] = sim
+    _FS_HOOK[0] = _yield
     outcome = {}
     import tempfile
     saved_tmp = tempfile.tempdir
@@ -765,6 +725,7 @@ def run_one(tape, only=None):
     finally:
         tempfile.tempdir = saved_tmp
         SIM[0] = None
+        _FS_HOOK[0] = None
         SimPoolBase.sim = None
         SimPoolBase.registry = None
         shutil.rmtree(root, ignore_errors=True)
